@@ -5,6 +5,10 @@ import ZCV.Lemmas.HandlersSpec
 import ZCV.Lemmas.HandlersText
 import ZCV.Lemmas.HandlersCall
 import ZCV.Lemmas.HandlersDemo
+import ZCV.Lemmas.NoInternalLower
+import ZCV.Lemmas.DischargeElab
+import ZCV.Lemmas.DischargeExamples
+import ZCV.Props.C10
 namespace ZCV.Props.C16
 open ZCV ZCV.Cfg
 
@@ -401,5 +405,60 @@ example : (callHandlers demoList [(['H', 'p'], some 7), (['h', 'K'], some 8), ([
   C16_all_or_nothing _ _ (.inr ⟨[], (['H', 'p'], some 7), [(['h', 'K'], some 8)], (['h', 'P'], none), [], ['h', 'p'],
     rfl, bk1, bk3⟩)
 end demoCall
+
+/-! ## the table hypotheses discharged -/
+
+/-- `C16_text_handlers_postorder` without the table hypothesis: `hlow` is discharged by the proved `lower_idem` -/
+theorem C16_text_handlers_postorder' (conv : Conv) (env : Env) (pkgs : Str → Pkg) (s : Schema) (url : Option Str)
+    (lines : List Str) (r : LoadResult) (hs : schemaOK s = true) (hkeys : ∀ p ∈ s.types, lower p.1 = p.1)
+    (hni : ∀ l ∈ lines, NoImportLine l) (hres : ∀ u ls, env.res u = some ls → ∀ l ∈ ls, NoImportLine l)
+    (h : load conv env pkgs s url lines [] = .ok r) :
+    ∃ items, treeOf env url lines = .ok items ∧ denote conv s items = some r.value ∧
+      r.handlers =
+        handlersOf conv s s.top items ++ (match s.handler with | some h => [(h, r.value)] | none => []) :=
+  C16_text_handlers_postorder conv env pkgs s url lines r hs ZCV.lower_idem hkeys hni hres h
+
+/-- `C16_text_len` without the table hypothesis (`hlow` discharged by `lower_idem`) -/
+theorem C16_text_len' (conv : Conv) (env : Env) (pkgs : Str → Pkg) (s : Schema) (url : Option Str)
+    (lines : List Str) (r : LoadResult) (hs : schemaOK s = true) (hkeys : ∀ p ∈ s.types, lower p.1 = p.1)
+    (hni : ∀ l ∈ lines, NoImportLine l) (hres : ∀ u ls, env.res u = some ls → ∀ l ∈ ls, NoImportLine l)
+    (h : load conv env pkgs s url lines [] = .ok r) :
+    ∃ items, treeOf env url lines = .ok items ∧ r.handlers.length = nHandled s items :=
+  C16_text_len conv env pkgs s url lines r hs ZCV.lower_idem hkeys hni hres h
+
+/-- **End to end.**  For the schema object `S` of ANY schema document the schema loader accepts (`hkey`: its key types
+    never turn a non-empty name into the empty string — true of the stock key types), every datatype family and every
+    text without `%import` loaded without overrides: the handler object returned with the configuration holds the
+    post-order handler list of the tree of the text (then the schema-level handler), and its length is `nHandled`.
+    `schemaOK`, `hlow`, `hkeys` are discharged (C10, `lower_idem`, `elab_types_keys_lower`). -/
+theorem C16_end_to_end (eenv : Elab.Env) (fuel : Nat) (doc : Elab.Node) (S : Schema)
+    (hkey : ∀ (kt s r : Str), s ≠ [] → eenv.conv.key kt s = .ok r → r ≠ [])
+    (hS : Elab.elabSchema eenv fuel doc = .ok S)
+    (conv : Conv) (env : Env) (pkgs : Str → Pkg) (url : Option Str) (lines : List Str) (r : LoadResult)
+    (hni : ∀ l ∈ lines, NoImportLine l) (hres : ∀ u ls, env.res u = some ls → ∀ l ∈ ls, NoImportLine l)
+    (h : load conv env pkgs S url lines [] = .ok r) :
+    ∃ items, treeOf env url lines = .ok items ∧ denote conv S items = some r.value ∧
+      r.handlers =
+        handlersOf conv S S.top items ++ (match S.handler with | some h => [(h, r.value)] | none => []) ∧
+      r.handlers.length = nHandled S items := by
+  have hs := ZCV.Props.C10.C10_elab_schemaOK eenv fuel doc S hkey hS
+  have hk := Elab.elab_types_keys_lower hS
+  obtain ⟨items, h1, h2, h3⟩ := C16_text_handlers_postorder' conv env pkgs S url lines r hs hk hni hres h
+  obtain ⟨items', h1', h4⟩ := C16_text_len' conv env pkgs S url lines r hs hk hni hres h
+  rw [h1] at h1'
+  cases h1'
+  exact ⟨items, h1, h2, h3, h4⟩
+
+/-- the hypotheses are satisfiable (accepted schema document with a base schema and a component, stock key types;
+    import-free text; no includable resources) -/
+example : ∃ S, Elab.elabSchema Elab.Example.env 1 Elab.Example.doc = .ok S ∧
+    ∀ r, load Ex.conv Ex.env Ex.pkgs S none DischargeEx.lines [] = .ok r →
+      ∃ items, treeOf Ex.env none DischargeEx.lines = .ok items ∧ r.handlers.length = nHandled S items := by
+  obtain ⟨S, hS⟩ := DischargeEx.dis_ex_doc_accepted
+  refine ⟨S, hS, fun r hr => ?_⟩
+  obtain ⟨items, h1, _, _, h4⟩ := C16_end_to_end Elab.Example.env 1 _ S
+    (by intro kt s r hs hr; exact Elab.stockConv_key_ne_nil kt s r hs hr) hS _ _ _ _ _ r
+    DischargeEx.dis_ex_lines_noImport DischargeEx.dis_ex_res hr
+  exact ⟨items, h1, h4⟩
 
 end ZCV.Props.C16
